@@ -440,4 +440,4 @@ def main(run):
         "reference definitions written from the MediaWiki help texts; #titleparts follows the behaviour pinned by the repository's tests (':' and '/' segmentation, 0-based first)",
         "float results are compared with relative tolerance 1e-9",
     ]
-    return run.finish(cov, assumptions, replay_fn=None)
+    return run.finish(cov, assumptions, replay_fn=replay)
